@@ -1265,3 +1265,488 @@ Proof.
   destruct (sot_lists 0 (map (@length nat) ls)) as [a b]. simpl in *.
   rewrite gather_app, A, B. reflexivity.
 Qed.
+
+(* ------------------------------------------------------------------ *)
+(* tensor.py: expand_operator's new_order, for every register size *)
+
+Lemma nth_set_nth_eq : forall l k x, k < length l -> nth k (set_nth l k x) 0 = x.
+Proof.
+  induction l as [|y l IH]; intros [|k] x H; simpl in *; try lia; try reflexivity.
+  apply IH. lia.
+Qed.
+
+Lemma assign_pairs_length : forall pv no, length (assign_pairs no pv) = length no.
+Proof.
+  induction pv as [|[p v] pv IH]; intros no; simpl; [reflexivity|].
+  rewrite IH. apply set_nth_length.
+Qed.
+
+Lemma assign_pairs_notin : forall pv no q, ~ In q (map fst pv) ->
+  nth q (assign_pairs no pv) 0 = nth q no 0.
+Proof.
+  induction pv as [|[p v] pv IH]; intros no q H; simpl; [reflexivity|].
+  simpl in H. rewrite IH by tauto. apply nth_set_nth_neq. intro E. apply H. left. congruence.
+Qed.
+
+Lemma assign_pairs_in : forall pv no p v, NoDup (map fst pv) ->
+  (forall q, In q (map fst pv) -> q < length no) -> In (p, v) pv ->
+  nth p (assign_pairs no pv) 0 = v.
+Proof.
+  induction pv as [|[p0 v0] pv IH]; intros no p v ND HB Hin; [destruct Hin|].
+  simpl in ND. inversion ND as [|? ? Hn ND']; subst. simpl.
+  destruct Hin as [E|Hin].
+  - injection E as E1 E2. subst p0 v0.
+    rewrite assign_pairs_notin by exact Hn. apply nth_set_nth_eq. apply HB. left. reflexivity.
+  - apply IH; [exact ND'| |exact Hin].
+    intros q Hq. rewrite set_nth_length. apply HB. right. exact Hq.
+Qed.
+
+Lemma assign_pairs_app : forall pv1 pv2 no,
+  assign_pairs (assign_pairs no pv1) pv2 = assign_pairs no (pv1 ++ pv2).
+Proof. induction pv1 as [|[p v] pv1 IH]; intros; simpl; [reflexivity|apply IH]. Qed.
+
+Lemma in_combine_nth : forall (a b : list nat) i, i < length a -> length a = length b ->
+  In (nth i a 0, nth i b 0) (combine a b).
+Proof.
+  induction a as [|x a IH]; intros [|y b] i Hi HL; simpl in *; try lia.
+  destruct i as [|i]; [left; reflexivity|right]. apply IH; lia.
+Qed.
+
+Lemma map_fst_combine_eq : forall (a b : list nat), length a = length b ->
+  map fst (combine a b) = a.
+Proof.
+  induction a as [|x a IH]; intros [|y b] HL; simpl in *; try discriminate; [reflexivity|].
+  f_equal. apply IH. lia.
+Qed.
+
+Lemma rest_pos_spec : forall N targets q,
+  In q (rest_pos N targets) <-> q < N /\ ~ In q targets.
+Proof.
+  intros. unfold rest_pos. rewrite filter_In, in_seq.
+  destruct (memb q targets) eqn:M.
+  - apply memb_In in M. simpl. split; [intros [_ F]; discriminate|tauto].
+  - simpl. split; [intros [A _]; split; [lia|]|intros [A _]; split; [lia|reflexivity]].
+    intro Hi. apply memb_In in Hi. congruence.
+Qed.
+
+Lemma filter_length_split : forall (f : nat -> bool) l,
+  length (filter f l) + length (filter (fun x => negb (f x)) l) = length l.
+Proof.
+  intros f l. induction l as [|x l IH]; simpl; [reflexivity|].
+  destruct (f x); simpl; lia.
+Qed.
+
+Lemma rest_pos_length : forall N targets, NoDup targets ->
+  (forall t, In t targets -> t < N) ->
+  length (rest_pos N targets) = N - length targets.
+Proof.
+  intros N targets ND HB. unfold rest_pos.
+  pose proof (filter_length_split (fun q => memb q targets) (seq 0 N)) as S.
+  rewrite seq_length in S.
+  assert (P : Permutation (filter (fun q => memb q targets) (seq 0 N)) targets).
+  { apply NoDup_Permutation; [apply NoDup_filter; apply seq_NoDup|exact ND|].
+    intros x. rewrite filter_In, in_seq, memb_In. split; [tauto|].
+    intros Hx. specialize (HB x Hx). split; [lia|exact Hx]. }
+  apply Permutation_length in P. lia.
+Qed.
+
+Lemma NoDup_app_disjoint : forall (a b : list nat), NoDup a -> NoDup b ->
+  (forall x, In x a -> ~ In x b) -> NoDup (a ++ b).
+Proof.
+  induction a as [|x a IH]; intros b Ha Hb Hd; simpl; [exact Hb|].
+  inversion Ha as [|? ? Hn Ha']; subst. constructor.
+  - rewrite in_app_iff. intros [H|H]; [tauto|]. apply (Hd x); [left; reflexivity|exact H].
+  - apply IH; [exact Ha'|exact Hb|]. intros y Hy. apply Hd. right. exact Hy.
+Qed.
+
+Section ExpandOrder.
+  Variable N : nat.
+  Variable targets : list nat.
+  Hypothesis ND : NoDup targets.
+  Hypothesis HB : forall t, In t targets -> t < N.
+
+  Let k := length targets.
+  Let rest := rest_pos N targets.
+  Let no := expand_new_order N targets.
+  Let pv := combine targets (seq 0 k) ++ combine rest (seq k (N - k)).
+
+  Lemma expand_rest_length : length rest = N - k.
+  Proof. unfold rest, k. apply rest_pos_length; assumption. Qed.
+
+  Lemma expand_order_as_one_pass : no = assign_pairs (repeat 0 N) pv.
+  Proof. unfold no, expand_new_order, pv. rewrite assign_pairs_app. reflexivity. Qed.
+
+  Lemma expand_keys : map fst pv = targets ++ rest.
+  Proof.
+    unfold pv. rewrite map_app, !map_fst_combine_eq; [reflexivity| |].
+    - rewrite seq_length. apply expand_rest_length.
+    - rewrite seq_length. reflexivity.
+  Qed.
+
+  Lemma expand_keys_nodup : NoDup (targets ++ rest).
+  Proof.
+    apply NoDup_app_disjoint; [exact ND|apply NoDup_filter; apply seq_NoDup|].
+    intros x Hx Hr. apply rest_pos_spec in Hr. tauto.
+  Qed.
+
+  Lemma expand_keys_bound : forall q, In q (targets ++ rest) -> q < N.
+  Proof.
+    intros q Hq. apply in_app_iff in Hq. destruct Hq as [H|H]; [apply HB; exact H|].
+    apply rest_pos_spec in H. tauto.
+  Qed.
+
+  Lemma expand_k_le : k <= N.
+  Proof.
+    unfold k. rewrite <- (seq_length N 0). apply NoDup_incl_length; [exact ND|].
+    intros x Hx. apply in_seq. specialize (HB x Hx). lia.
+  Qed.
+
+  Lemma expand_order_length : length no = N.
+  Proof. rewrite expand_order_as_one_pass, assign_pairs_length, repeat_length. reflexivity. Qed.
+
+  (* factor i of the operand is sent to subsystem targets[i] *)
+  Lemma expand_order_targets : forall i, i < k -> nth (nth i targets 0) no 0 = i.
+  Proof.
+    intros i Hi. rewrite expand_order_as_one_pass.
+    apply assign_pairs_in.
+    - rewrite expand_keys. apply expand_keys_nodup.
+    - intros q Hq. rewrite expand_keys in Hq. rewrite repeat_length. apply expand_keys_bound. exact Hq.
+    - unfold pv. apply in_or_app. left.
+      replace i with (nth i (seq 0 k) 0) at 2 by (rewrite seq_nth; lia).
+      apply in_combine_nth; [exact Hi|rewrite seq_length; reflexivity].
+  Qed.
+
+  (* the j-th identity is sent to the j-th position that is not a target *)
+  Lemma expand_order_rest : forall j, j < N - k -> nth (nth j rest 0) no 0 = k + j.
+  Proof.
+    intros j Hj. rewrite expand_order_as_one_pass.
+    apply assign_pairs_in.
+    - rewrite expand_keys. apply expand_keys_nodup.
+    - intros q Hq. rewrite expand_keys in Hq. rewrite repeat_length. apply expand_keys_bound. exact Hq.
+    - unfold pv. apply in_or_app. right.
+      replace (k + j) with (nth j (seq k (N - k)) 0) by (rewrite seq_nth; lia).
+      apply in_combine_nth; [rewrite expand_rest_length; exact Hj|].
+      rewrite seq_length. apply expand_rest_length.
+  Qed.
+
+  (* new_order composed with (targets ++ rest) is the identity *)
+  Lemma expand_order_inverse : forall m, m < N -> nth (nth m (targets ++ rest) 0) no 0 = m.
+  Proof.
+    intros m Hm. pose proof expand_k_le as KL. destruct (Nat.lt_ge_cases m k) as [L|L].
+    - rewrite app_nth1 by exact L. apply expand_order_targets. exact L.
+    - rewrite app_nth2 by exact L. fold k. rewrite expand_order_rest by lia. lia.
+  Qed.
+
+  Lemma expand_inv_length : length (targets ++ rest) = N.
+  Proof. pose proof expand_k_le. rewrite app_length, expand_rest_length. fold k. lia. Qed.
+
+  (* new_order is a permutation of 0..N-1 *)
+  Lemma expand_order_perm : NoDup no /\ (forall o, In o no -> o < N).
+  Proof.
+    pose proof expand_inv_length as IL. pose proof expand_order_length as OL.
+    assert (COV : forall p, p < N -> exists m, m < N /\ nth m (targets ++ rest) 0 = p).
+    { intros p Hp.
+      pose proof (order_covers N (targets ++ rest) expand_keys_nodup IL expand_keys_bound p Hp) as Hin.
+      destruct (In_nth _ _ 0 Hin) as (m & Hm & E). exists m. split; [lia|exact E]. }
+    split.
+    - apply (NoDup_nth no 0). intros p q Hp Hq E. rewrite OL in Hp, Hq.
+      destruct (COV p Hp) as (m & Hm & Em). destruct (COV q Hq) as (m' & Hm' & Em').
+      subst p q. rewrite !expand_order_inverse in E by assumption. congruence.
+    - intros o Ho. destruct (In_nth _ _ 0 Ho) as (p & Hp & E). rewrite OL in Hp.
+      destruct (COV p Hp) as (m & Hm & Em). subst p. rewrite expand_order_inverse in E by exact Hm. lia.
+  Qed.
+
+  (* what the permutation does to any list of per-subsystem data laid out as
+     [operand factors..., identities...] (dims, digits): subsystem targets[i]
+     receives entry i, the j-th other subsystem receives entry k + j *)
+  Lemma expand_gather_targets : forall ds i, i < k ->
+    nth (nth i targets 0) (gather no ds) 0 = nth i ds 0.
+  Proof.
+    intros ds i Hi. unfold gather.
+    assert (B : nth i targets 0 < length no).
+    { rewrite expand_order_length. apply HB. apply nth_In. exact Hi. }
+    rewrite (nth_indep _ 0 (nth (length ds) ds 0)) by (rewrite map_length; exact B).
+    rewrite (map_nth (fun o => nth o ds 0) no (length ds)).
+    rewrite (nth_indep no (length ds) 0) by exact B.
+    rewrite expand_order_targets by exact Hi. reflexivity.
+  Qed.
+
+  Lemma expand_gather_rest : forall ds j, j < N - k ->
+    nth (nth j rest 0) (gather no ds) 0 = nth (k + j) ds 0.
+  Proof.
+    intros ds j Hj. unfold gather.
+    assert (B : nth j rest 0 < length no).
+    { rewrite expand_order_length.
+      assert (I : In (nth j rest 0) rest) by (apply nth_In; rewrite expand_rest_length; exact Hj).
+      apply rest_pos_spec in I. tauto. }
+    rewrite (nth_indep _ 0 (nth (length ds) ds 0)) by (rewrite map_length; exact B).
+    rewrite (map_nth (fun o => nth o ds 0) no (length ds)).
+    rewrite (nth_indep no (length ds) 0) by exact B.
+    rewrite expand_order_rest by exact Hj. reflexivity.
+  Qed.
+End ExpandOrder.
+
+Lemma gather_nth : forall order l i, i < length order ->
+  nth i (gather order l) 0 = nth (nth i order 0) l 0.
+Proof.
+  intros order l i Hi. unfold gather.
+  rewrite (nth_indep _ 0 (nth (length l) l 0)) by (rewrite map_length; exact Hi).
+  rewrite (map_nth (fun o => nth o l 0) order (length l)).
+  f_equal. apply nth_indep. exact Hi.
+Qed.
+
+Lemma gather_length : forall order l, length (gather order l) = length order.
+Proof. intros. unfold gather. apply map_length. Qed.
+
+Lemma expand_cover : forall N targets, NoDup targets -> (forall t, In t targets -> t < N) ->
+  forall p, p < N ->
+  (exists i, i < length targets /\ nth i targets 0 = p) \/
+  (exists j, j < N - length targets /\ nth j (rest_pos N targets) 0 = p).
+Proof.
+  intros N targets ND HB p Hp.
+  destruct (in_dec Nat.eq_dec p targets) as [I|I].
+  - left. destruct (In_nth _ _ 0 I) as (i & Hi & E). exists i. tauto.
+  - right. assert (R : In p (rest_pos N targets)) by (apply rest_pos_spec; tauto).
+    destruct (In_nth _ _ 0 R) as (j & Hj & E). exists j.
+    rewrite (rest_pos_length N targets ND HB) in Hj. tauto.
+Qed.
+
+(* the structure handed to permute.dimensions, permuted by new_order, is dims *)
+Theorem expand_structure_is_dims : forall dims targets,
+  NoDup targets -> (forall t, In t targets -> t < length dims) ->
+  gather (expand_new_order (length dims) targets) (expand_pre_dims dims targets) = dims.
+Proof.
+  intros dims targets ND HB. set (N := length dims).
+  pose proof (expand_order_length N targets) as OL.
+  apply nth_ext with (d := 0) (d' := 0); [rewrite gather_length; exact OL|].
+  intros p Hp. rewrite gather_length, OL in Hp.
+  unfold expand_pre_dims. fold N.
+  destruct (expand_cover N targets ND HB p Hp) as [(i & Hi & E)|(j & Hj & E)]; subst p.
+  - rewrite (expand_gather_targets N targets ND HB _ i Hi).
+    rewrite app_nth1 by (rewrite gather_length; exact Hi).
+    apply gather_nth. exact Hi.
+  - rewrite (expand_gather_rest N targets ND HB _ j Hj).
+    rewrite app_nth2 by (rewrite gather_length; lia).
+    rewrite gather_length. replace (length targets + j - length targets) with j by lia.
+    apply gather_nth. rewrite (rest_pos_length N targets ND HB). exact Hj.
+Qed.
+
+(* end to end: where expand_operator's final permute.dimensions sends the
+   flat index whose digits (operand factors first, identities after) are ds *)
+Theorem expand_index_map : forall dims targets ix ds,
+  NoDup targets -> (forall t, In t targets -> t < length dims) ->
+  indexer_init (expand_pre_dims dims targets) (expand_new_order (length dims) targets) = inr ix ->
+  valid (expand_pre_dims dims targets) ds ->
+  let es := gather (expand_new_order (length dims) targets) ds in
+  single ix (undigits (expand_pre_dims dims targets) ds) = undigits dims es /\
+  valid dims es /\
+  (forall i, i < length targets -> nth (nth i targets 0) es 0 = nth i ds 0) /\
+  (forall j, j < length dims - length targets ->
+     nth (nth j (rest_pos (length dims) targets) 0) es 0 = nth (length targets + j) ds 0).
+Proof.
+  intros dims targets ix ds ND HB Hi Hv es.
+  destruct (indexer_single_spec _ _ ix ds Hi Hv) as (S & _ & _ & V).
+  rewrite (expand_structure_is_dims dims targets ND HB) in S, V.
+  split; [exact S|]. split; [exact V|]. split.
+  - intros i Hlt. apply (expand_gather_targets (length dims) targets ND HB ds i Hlt).
+  - intros j Hlt. apply (expand_gather_rest (length dims) targets ND HB ds j Hlt).
+Qed.
+
+Lemma check_order_complete : forall n dims order seen,
+  NoDup order ->
+  (forall o, In o order -> o < n /\ ~ In o seen /\ 0 < nth o dims 0) ->
+  check_order n dims seen order = None.
+Proof.
+  induction order as [|o order IH]; intros seen ND H; [reflexivity|].
+  inversion ND as [|? ? Hn ND']; subst. simpl.
+  destruct (H o (or_introl eq_refl)) as (A & B & Cc).
+  destruct (Nat.leb_spec n o) as [L|L]; [lia|].
+  destruct (memb o seen) eqn:M; [apply memb_In in M; tauto|].
+  destruct (Nat.eqb_spec (nth o dims 0) 0) as [Z|Z]; [lia|].
+  apply IH; [exact ND'|].
+  intros o' Ho'. destruct (H o' (or_intror Ho')) as (A' & B' & C').
+  split; [exact A'|]. split; [|exact C'].
+  intros [E|E]; [subst; tauto|tauto].
+Qed.
+
+Lemma allpos_gather : forall order dims, allpos dims ->
+  (forall o, In o order -> o < length dims) -> allpos (gather order dims).
+Proof.
+  intros order dims Hp HB. unfold allpos, gather. apply Forall_forall.
+  intros d Hd. apply in_map_iff in Hd. destruct Hd as (o & E & Ho). subst d.
+  unfold allpos in Hp. rewrite Forall_forall in Hp. apply Hp. apply nth_In. apply HB. exact Ho.
+Qed.
+
+(* expand_operator's final permute.dimensions never rejects its own order *)
+Theorem expand_indexer_accepts : forall dims targets, allpos dims ->
+  NoDup targets -> (forall t, In t targets -> t < length dims) ->
+  exists ix, indexer_init (expand_pre_dims dims targets)
+                          (expand_new_order (length dims) targets) = inr ix.
+Proof.
+  intros dims targets Hp ND HB. set (N := length dims).
+  pose proof (expand_order_length N targets) as OL.
+  destruct (expand_order_perm N targets ND HB) as [NDo HBo].
+  assert (PL : length (expand_pre_dims dims targets) = N).
+  { unfold expand_pre_dims. rewrite app_length, !gather_length. fold N.
+    rewrite (rest_pos_length N targets ND HB).
+    pose proof (expand_k_le N targets ND HB). lia. }
+  assert (PP : allpos (expand_pre_dims dims targets)).
+  { unfold expand_pre_dims. unfold allpos. apply Forall_app. split.
+    - apply allpos_gather; assumption.
+    - apply allpos_gather; [exact Hp|]. intros o Ho. apply rest_pos_spec in Ho. tauto. }
+  unfold indexer_init. fold N. rewrite OL, PL, Nat.eqb_refl. simpl.
+  rewrite check_order_complete.
+  - eexists. reflexivity.
+  - exact NDo.
+  - intros o Ho. split; [apply HBo; exact Ho|]. split; [intros []|].
+    unfold allpos in PP. rewrite Forall_forall in PP. apply PP. apply nth_In.
+    rewrite PL. apply HBo. exact Ho.
+Qed.
+
+(* ------------------------------------------------------------------ *)
+(* reshuffle: the two directions are mutually inverse, any number of factors *)
+
+Lemma gather_flat_map : forall (f : nat -> list nat) l X,
+  gather (flat_map f l) X = flat_map (fun i => gather (f i) X) l.
+Proof.
+  intros f l X. induction l as [|a l IH]; simpl; [reflexivity|].
+  rewrite gather_app, IH. reflexivity.
+Qed.
+
+Lemma interleave_by_index : forall L R k, length L = length R ->
+  flat_map (fun i => [nth (i - k) L 0; nth (i - k) R 0]) (seq k (length L)) = interleave L R.
+Proof.
+  induction L as [|x L IH]; intros R k HL; destruct R as [|y R]; simpl in HL; try discriminate;
+    [reflexivity|].
+  injection HL as HL. simpl. rewrite Nat.sub_diag. simpl. f_equal. f_equal.
+  rewrite <- (IH R (S k) HL). rewrite !flat_map_concat_map. f_equal.
+  apply map_ext_in. intros i Hi. apply in_seq in Hi.
+  replace (i - k) with (S (i - S k)) by lia. reflexivity.
+Qed.
+
+(* _to_tensor_of_super on a superoperator space over s subsystems: rows L,
+   columns R become (row, column) pairs per subsystem *)
+Theorem tensor_of_super_interleaves : forall L R, length L = length R ->
+  gather (tensor_of_super_order (length L)) (L ++ R) = interleave L R.
+Proof.
+  intros L R HL. unfold tensor_of_super_order. rewrite gather_flat_map.
+  rewrite <- (interleave_by_index L R 0 HL). rewrite !flat_map_concat_map. f_equal.
+  apply map_ext_in. intros i Hi. apply in_seq in Hi. simpl.
+  rewrite Nat.sub_0_r. rewrite app_nth1 by lia.
+  rewrite (Nat.add_comm i (length L)), app_nth2_plus. reflexivity.
+Qed.
+
+Lemma labels_singletons : forall L R, length L = length R ->
+  tensor_of_supers_labels (map (fun x => [x]) L) (map (fun x => [x]) R) = interleave L R.
+Proof.
+  induction L as [|x L IH]; intros R HL; destruct R as [|y R]; simpl in HL; try discriminate;
+    [reflexivity|].
+  injection HL as HL. unfold tensor_of_supers_labels in *. simpl. rewrite (IH R HL). reflexivity.
+Qed.
+
+Lemma concat_singletons : forall L : list nat, concat (map (fun x => [x]) L) = L.
+Proof. induction L as [|x L IH]; simpl; [reflexivity|]. rewrite IH. reflexivity. Qed.
+
+Lemma lengths_singletons : forall L : list nat,
+  map (@length nat) (map (fun x => [x]) L) = repeat 1 (length L).
+Proof. induction L as [|x L IH]; simpl; [reflexivity|]. rewrite IH. reflexivity. Qed.
+
+Lemma Forall2_singletons : forall L R : list nat, length L = length R ->
+  Forall2 (fun l r : list nat => length l = length r) (map (fun x => [x]) L) (map (fun x => [x]) R).
+Proof.
+  induction L as [|x L IH]; intros R HL; destruct R as [|y R]; simpl in HL; try discriminate;
+    simpl; constructor; [reflexivity|]. apply IH. lia.
+Qed.
+
+(* _to_super_of_tensor on a tensor of single-space superoperators *)
+Theorem super_of_tensor_deinterleaves : forall L R, length L = length R ->
+  gather (super_of_tensor_order (repeat 1 (length L))) (interleave L R) = L ++ R.
+Proof.
+  intros L R HL.
+  rewrite <- (lengths_singletons L), <- (labels_singletons L R HL).
+  rewrite (super_of_tensor_groups _ _ (Forall2_singletons L R HL)).
+  rewrite !concat_singletons. reflexivity.
+Qed.
+
+Theorem reshuffle_round_trips : forall L R, length L = length R ->
+  gather (tensor_of_super_order (length L))
+         (gather (super_of_tensor_order (repeat 1 (length L))) (interleave L R)) = interleave L R /\
+  gather (super_of_tensor_order (repeat 1 (length L)))
+         (gather (tensor_of_super_order (length L)) (L ++ R)) = L ++ R.
+Proof.
+  intros L R HL. split.
+  - rewrite (super_of_tensor_deinterleaves L R HL). apply tensor_of_super_interleaves. exact HL.
+  - rewrite (tensor_of_super_interleaves L R HL). apply super_of_tensor_deinterleaves. exact HL.
+Qed.
+
+Lemma concat_lengths_eq : forall ls rs : list (list nat),
+  Forall2 (fun l r => length l = length r) ls rs -> length (concat ls) = length (concat rs).
+Proof.
+  intros ls rs H. induction H as [|l r ls rs E _ IH]; simpl; [reflexivity|].
+  rewrite !app_length. lia.
+Qed.
+
+(* reshuffle twice on a tensor of superoperators over composite spaces: one
+   superoperator space per subsystem *)
+Theorem reshuffle_twice_splits_subsystems : forall ls rs,
+  Forall2 (fun l r => length l = length r) ls rs ->
+  gather (tensor_of_super_order (length (concat ls)))
+         (gather (super_of_tensor_order (map (@length nat) ls)) (tensor_of_supers_labels ls rs))
+  = interleave (concat ls) (concat rs).
+Proof.
+  intros ls rs H. rewrite (super_of_tensor_groups ls rs H).
+  apply tensor_of_super_interleaves. apply concat_lengths_eq. exact H.
+Qed.
+
+(* ---- the Compound branch of the private _to_tensor_of_super ---- *)
+Definition per_factor_interleave (ls rs : list (list nat)) : list nat :=
+  concat (map (fun p => interleave (fst p) (snd p)) (combine ls rs)).
+
+Lemma gather_window_gen : forall pre X idxs,
+  gather (map (fun i => length pre + i) idxs) (pre ++ X) = gather idxs X.
+Proof.
+  intros pre X idxs. unfold gather. rewrite map_map. apply map_ext.
+  intros i. apply app_nth2_plus.
+Qed.
+
+Lemma tos_compound_head : forall shift n,
+  map (fun i => shift + 2 * i) (seq 0 n) ++ map (fun i => shift + 2 * i + 1) (seq 0 n)
+  = map (fun i => shift + i) (map (fun i => 2 * i) (seq 0 n) ++ map (fun i => 2 * i + 1) (seq 0 n)).
+Proof.
+  intros. rewrite map_app, !map_map. f_equal. apply map_ext. intros; lia.
+Qed.
+
+(* right when every factor is over at most 2 subsystems ... *)
+Theorem tos_compound_small_factors : forall ls rs,
+  Forall2 (fun l r => length l = length r) ls rs ->
+  Forall (fun l => length l <= 2) ls ->
+  forall pre,
+  gather (tos_compound_order (length pre) (map (@length nat) ls))
+         (pre ++ tensor_of_supers_labels ls rs) = per_factor_interleave ls rs.
+Proof.
+  intros ls rs H. induction H as [|l r ls rs Hlr _ IH]; intros Hs pre.
+  - reflexivity.
+  - inversion Hs as [|? ? Hl Hs']; subst.
+    unfold tensor_of_supers_labels, per_factor_interleave.
+    cbn [map combine concat fst snd tos_compound_order].
+    fold (tensor_of_supers_labels ls rs). fold (per_factor_interleave ls rs).
+    rewrite app_assoc, gather_app, tos_compound_head. f_equal.
+    + rewrite gather_window_gen.
+      destruct l as [|a [|b [|c l]]]; destruct r as [|a' [|b' [|c' r]]]; simpl in Hlr, Hl;
+        try discriminate; try lia; reflexivity.
+    + specialize (IH Hs' (pre ++ l ++ r)).
+      assert (E : length (pre ++ l ++ r) = length pre + 2 * length l)
+        by (rewrite !app_length; lia).
+      rewrite E in IH. rewrite <- IH. f_equal. rewrite <- !app_assoc. reflexivity.
+Qed.
+
+(* ... and wrong for a factor over 3 subsystems: it should turn the grouped
+   labels (rows, then columns) of the factor into (row, column) pairs *)
+Theorem tos_compound_three_subsystems_wrong :
+  exists ls rs, Forall2 (fun l r : list nat => length l = length r) ls rs /\
+    gather (tos_compound_order 0 (map (@length nat) ls)) (tensor_of_supers_labels ls rs)
+    <> per_factor_interleave ls rs.
+Proof.
+  exists [[10; 11; 12]], [[20; 21; 22]]. split; [repeat constructor|].
+  vm_compute. discriminate.
+Qed.
